@@ -2,7 +2,7 @@
    written against: pthread mutex (plain / recursive), condition variable, counting semaphore,
    thread create / join / exit, and a scripted clock.  Executable, no proofs in this file.
    Reusable: a client supplies its own thread layer (what each thread calls next) and uses
-   [prim_step] for a thread's pending call plus [prim_spurious] / [prim_timeout] / [prim_clock] /
+   [prim_step] for a thread's pending call plus [prim_spurious] / [prim_timeout] / [prim_timeout_steal] / [prim_clock] /
    [prim_rotate] for the scheduler's own moves.
 
    Conventions
@@ -15,8 +15,15 @@
    * which waiter pthread_cond_signal wakes is unspecified by POSIX: the model wakes the first
      blocked thread of the condition's queue, and the scheduler may [Rotate] that queue at any
      time, so every choice is reachable;
+   * a pthread_cond_timedwait whose deadline has passed may report ETIMEDOUT although a
+     pthread_cond_signal / broadcast has already been directed at it and is thereby consumed (POSIX,
+     pthread_cond_timedwait, "Timed Wait Semantics": the predicate must be re-evaluated whatever the
+     return value): the scheduler move [TimeoutSteal] turns the return code of a woken timed waiter
+     that has not yet re-acquired its mutex into ETIMEDOUT;
    * undefined behaviour (pthread_cond_wait on a mutex the caller does not own) stops the
-     thread ([TFault]); unlocking a mutex one does not own returns EPERM and changes nothing. *)
+     thread ([TFault]); unlocking a mutex one does not own returns EPERM and changes nothing for a
+     recursive (or error-checking) mutex; a default-type mutex is not owner-checked by glibc: the
+     unlock succeeds and the mutex becomes free whoever held it. *)
 From Coq Require Import ZArith List Bool Arith.
 Import ListNotations.
 Local Open Scope Z_scope.
@@ -111,7 +118,9 @@ Definition prim_step (p : prim_state) (t : tid) (c : prim_call) : outcome :=
   | PYield => Return p 0
   | PLock m => match acquire p m t with Some p' => Return p' 0 | None => Blocked end
   | PTryLock m => match acquire p m t with Some p' => Return p' 0 | None => Return p EBUSY end
-  | PUnlock m => if owned_by (mtx p m) t then Return (release p m) 0 else Return p EPERM
+  | PUnlock m => if owned_by (mtx p m) t then Return (release p m) 0
+                 else if m_rec (mtx p m) then Return p EPERM
+                 else Return (release_all p m) 0
   | PCondWait c m dl =>
       match st p t with
       | TRun =>
@@ -159,6 +168,14 @@ Definition prim_timeout (p : prim_state) (t : tid) : prim_state :=
   | _ => p
   end.
 
+(* the signal (or broadcast) reached a timed waiter whose deadline has passed: it reports the timeout *)
+Definition prim_timeout_steal (p : prim_state) (t : tid) : prim_state :=
+  match st p t with
+  | TWoken m _ (Some d) =>
+      if dl_expired d (now p) then set_st p t (TWoken m ETIMEDOUT (Some d)) else p
+  | _ => p
+  end.
+
 Definition prim_clock (p : prim_state) (n : Z) : prim_state := set_now p (Z.max (now p) n).
 
 Definition prim_rotate (p : prim_state) (c : nat) : prim_state :=
@@ -175,6 +192,6 @@ Definition runnable (s : tstat) : bool :=
 Definition prim_enabled (p : prim_state) (t : tid) (c : prim_call) : bool :=
   runnable (st p t) && match prim_step p t c with Blocked => false | _ => true end.
 
-Inductive move := Run (t : tid) | Spurious (t : tid) | Timeout (t : tid) | Clock (n : Z) | Rotate (c : nat).
+Inductive move := Run (t : tid) | Spurious (t : tid) | Timeout (t : tid) | TimeoutSteal (t : tid) | Clock (n : Z) | Rotate (c : nat).
 
 Definition mk_mutex (r : bool) : mutex := {| m_rec := r; m_owner := None; m_cnt := 0 |}.
